@@ -1,0 +1,7 @@
+//go:build !verif
+
+package value
+
+func vhook(ev string, args ...any) {}
+
+func vhookSym(ev string, s *SymbolTableStruct, name string, sym Symbol, ok bool) {}
